@@ -41,6 +41,7 @@ try:
         results[seed] = {"exit": c.returncode, "tail": lines[-3:], "signatures": sorted(set(sigs))[:8]}
 finally:
     sh("git -C /repo worktree remove --force %s" % WT)
+    sh("cd %s && python3 harness/extract_sites.py > /dev/null" % ROOT)   # source-derived Coq files back to /repo's
     if ev_backup is not None:      # evidence must come from runs against /repo itself
         open(evf, "w").write(ev_backup)
     sh("find %s/replays -name '%s_*' -newer %s -delete" % (ROOT, prop, patch))
